@@ -5,7 +5,7 @@
  R3  size(): values.size() when frozen, root.size() otherwise; remove() erases one value and shifts larger indices in both representations
  R4  the frozen form is built in map (sorted) order, which the binary search relies on; the unfrozen and frozen lookups are selected by isFrozen only
 """
-from vlib.facts import kids, strip, walk, is_call, call_args, call_object, callee, render, literal
+from vlib.facts import noid, kids, strip, walk, is_call, call_args, call_object, callee, render, literal
 from vlib.cfg import write_target
 from vlib.work import AnalysisBroken
 
@@ -32,6 +32,7 @@ def run(ctx):
     R.rule("C28-R1", "tree mutation is dominated by defrost() and followed by freeze() under autoFreeze", floor=4)
     R.rule("C28-R2", "trieNode::get: one length expression for results naming the current node", floor=2)
     R.rule("C28-R3", "size() and remove() consistent across representations", floor=5)
+    R.rule("C28-R5", "remove prunes a node only when it holds no value and has no children", floor=4)
     R.rule("C28-R4", "frozen layout in sorted map order; lookup selected by isFrozen", floor=4)
 
     # ---- R1 --------------------------------------------------------------------------
@@ -119,6 +120,60 @@ def run(ctx):
     ok = any(n["k"] == "UnaryOperator" and n.get("op") == "--" for n in di.walk()) and any(n["k"] == "BinaryOperator" and n.get("op") == ">" and "valueIndex" in render(n, False) for n in di.walk()) \
         and any(c["k"] == "CXXMemberCallExpr" and callee(c) == "occa::trieNode::decrementIndex" for c in di.walk())
     R.ob("C28-R3", ok, di.q, "nodes: recursive decrement of indices > removed", "%s:%d" % (di.relfile, di.d["line"]), "recursive over all leaves, strictly-greater test")
+    # ---- R5: pruning --------------------------------------------------------------------------------------------------------------
+    nre = prog.fn("occa::trieNode::nestedRemove")
+    ncfg = nre.cfg
+    NIN = ncfg.facts_in()
+
+    def conjuncts(e):
+        e = strip(e)
+        while e["k"] == "ParenExpr":
+            e = strip(kids(e)[0])
+        if e["k"] == "BinaryOperator" and e.get("op") == "&&":
+            return conjuncts(kids(e)[0]) + conjuncts(kids(e)[1])
+        t = noid(render(e, False)).replace(" ", "")
+        while t.startswith("(") and t.endswith(")") and _balanced(t[1:-1]):
+            t = t[1:-1]
+        return [t]
+
+    def _balanced(t):
+        d = 0
+        for ch in t:
+            d += ch == "("
+            d -= ch == ")"
+            if d < 0:
+                return False
+        return d == 0
+    n_ret = 0
+    for r in nre.walk():
+        if r["k"] != "ReturnStmt":
+            continue
+        n_ret += 1
+        if literal(kids(r)[0]) is False:
+            R.ob("C28-R5", True, nre.q, "prunable:false", nre.site(r), "reports 'keep this node'", nontrivial=False)
+            continue
+        cj = conjuncts(kids(r)[0])
+        novalue = any(c in ("this->valueIndex<0", "this->valueIndex==-1", "this->valueIndex==(-1)") for c in cj)
+        nochild = any(c in ("!this->leaves.size()", "this->leaves.empty()", "this->leaves.size()==0") for c in cj)
+        ok = novalue and nochild
+        R.ob("C28-R5", ok, nre.q, "prunable: no value and no children", nre.site(r),
+             "a node is reported prunable only if valueIndex < 0 and it has no leaves" if ok else
+             "a node is reported prunable under %s only: the parent erases it although %s - add(\"a\"); add(\"ab\"); remove(\"ab\") loses \"a\""
+             % (cj, "it still stores a key's value" if not novalue else "it still has children"))
+    erases = [c for c in nre.walk() if c["k"] == "CXXMemberCallExpr" and callee(c).endswith("::erase") and "this->leaves" in noid(render(call_object(c), False))]
+    rec = {v["d"] for v in nre.walk() if v["k"] == "VarDecl" and any(is_call(x) and callee(x) == nre.q for x in walk(v))}
+    for c in erases:
+        fs = ncfg.facts_at(c, NIN)
+        by_callee = any(pol and noid(k).replace(" ", "").split("(")[0].endswith(".nestedRemove") for (k, pol) in fs)
+        clears = [n for n in nre.walk() if write_target(n) is not None and noid(render(strip(write_target(n)), False)).endswith(".valueIndex") and literal(kids(n)[1]) == -1 or
+                  (write_target(n) is not None and noid(render(strip(write_target(n)), False)).endswith(".valueIndex") and "-1" in noid(render(kids(n)[1], False)))]
+        local = any((not pol) and noid(k).endswith(".leaves.size()") for (k, pol) in fs) or any(pol and noid(k).endswith(".leaves.empty()") for (k, pol) in fs)
+        local = local and any(ncfg.before(w, c) for w in clears)
+        ok = by_callee or local
+        R.ob("C28-R5", ok, nre.q, "erase child: %s" % ("the child said it is prunable" if by_callee else "value just cleared and no grandchildren" if local else "unguarded"), nre.site(c),
+             "child erased only when empty" if ok else "a child node is erased without knowing that it holds no value and has no children")
+    if n_ret < 2 or len(erases) < 2:
+        raise AnalysisBroken("nestedRemove: %d returns / %d erases (expected >= 2 each)" % (n_ret, len(erases)))
     # ---- R4 --------------------------------------------------------------------------
     td = prog.typedefs.get("occa::trieNodeMap_t")
     ok = td is not None and td["ct"].startswith("std::map<char, occa::trieNode")
